@@ -3,7 +3,9 @@
 spec/lang/Match.tla decides, by brute force over small finite types, Exhaustive / Unreachable / UselessAlt /
 FirstMatch for every pattern matrix up to a bound (TLC: one state per (type, matrix)); every matrix is rendered as
 a Dora `match` and (a) the real checker's diagnostics (NON_EXHAUSTIVE_MATCH, USELESS_PATTERN by span) are compared
-with the verdict, in function bodies, lambdas and global initialisers; (b) accepted matrices are compiled with both
+with the verdict, in function bodies, lambdas, global initialisers and 36 further expression / declaration contexts
+(assignment and compound-assignment right-hand sides, let initialisers, return operands, call / constructor / index
+arguments, operands, conditions, branches, loop bodies, nested matches, string templates, impl / trait / module functions); (b) accepted matrices are compiled with both
 code generators and called on every value x guard valuation - the arm chosen at run time must be FirstMatch.
 """
 import json, os, random, re, sys
@@ -20,7 +22,7 @@ MANIFEST = dict(
     text="Small-scope exhaustive: all matrices with <= 2 rows (quick) / <= 3 rows (thorough) over six scrutinee types (Bool, plain "
          "enum, Option, tuple, enum with payloads, Int32 literals) with nesting depth 2, plus top-level alternatives; for each the "
          "spec's verdict must equal the checker's diagnostics exactly (both directions), in function, lambda and global-initialiser "
-         "position; accepted matrices run on every value x guard valuation with both back ends.",
+         "position and, sampled, in every other expression / declaration context a match can stand in; accepted matrices run on every value x guard valuation with both back ends.",
     note="Trusted: TLC; the rendering of patterns to Dora syntax; Int32 abstracted to {0, 1, other}; bindings are rendered as "
          "wildcards or fresh identifiers (same semantics).",
     ref="4/C11")
@@ -77,7 +79,7 @@ def diag_half(ctx, rows, position, tag):
                     got_useless.setdefault(k, set()).update({(i, 1), (i, 2)})
                 else:
                     got_useless.setdefault(k, set()).add((i, j + 1))
-        elif d.startswith("unused variable"):
+        elif d.startswith("unused variable") or d.startswith("unused use"):
             pass
         else:
             other.append(e)
@@ -155,6 +157,12 @@ def run(ctx):
     sub = rng.sample(drows, min(len(drows), 400 if ctx.quick else 2000))
     diag_half(ctx, sub, "lambda", "lambda")
     diag_half(ctx, sub[:200 if ctx.quick else 800], "global", "global")
+    # every expression / declaration context a match can stand in (the checker's walk must reach all of them)
+    per = 60 if ctx.quick else 400
+    for pos in mr.CONTEXTS:
+        if pos != "fn":
+            diag_half(ctx, rng.sample(drows, min(len(drows), per)), pos, pos)
+    ctx.extra["contexts"] = sorted(mr.CONTEXTS) + ["lambda", "global"]
     acc = [r for r in rows if r["exh"]]
     pick = rng.sample(acc, min(len(acc), 150 if ctx.quick else 1500))
     for i in range(0, len(pick), 250):
